@@ -316,10 +316,36 @@ func (cx *Ctx) checkAttrFilter(r *Report) {
 	}
 	lvf := cx.newVFlow("provider.makeAttributeQueryResponse", fn)
 	// the value passed as `attributes` to makeAssertion
+	// (the argument of that type, or the field of that type of a parameter object built for the call)
 	var provided ssa.Value
+	isAttrList := func(t types.Type) bool {
+		sl, ok := t.Underlying().(*types.Slice)
+		if !ok {
+			return false
+		}
+		return typeKey(sl.Elem()) == "saml.AttributeType" || strings.HasSuffix(typeKey(sl.Elem()), "saml.AttributeType")
+	}
 	for _, c := range callsIn(fn) {
-		if f := calleeOf(c); f != nil && w.FuncKey(f) == "provider.makeAssertion" && len(c.Common().Args) >= 8 {
-			provided = c.Common().Args[7]
+		if f := calleeOf(c); f != nil && w.FuncKey(f) == "provider.makeAssertion" {
+			for _, a := range c.Common().Args {
+				if isAttrList(a.Type()) {
+					provided = a
+				}
+				// a struct value: the fields stored into the literal it was loaded from
+				if ld, isLd := a.(*ssa.UnOp); isLd {
+					if al, isAl := ld.X.(*ssa.Alloc); isAl {
+						for _, ref := range nonDebugRefs(al) {
+							if fa, isFA := ref.(*ssa.FieldAddr); isFA {
+								for _, r2 := range nonDebugRefs(fa) {
+									if st, isSt := r2.(*ssa.Store); isSt && st.Addr == ssa.Value(fa) && isAttrList(st.Val.Type()) {
+										provided = st.Val
+									}
+								}
+							}
+						}
+					}
+				}
+			}
 		}
 	}
 	if provided == nil {
@@ -344,6 +370,11 @@ func (cx *Ctx) checkAttrFilter(r *Report) {
 			if b, ok := x.Call.Value.(*ssa.Builtin); ok && b.Name() == "append" {
 				appends = append(appends, x)
 				walk(x.Call.Args[0])
+			} else if g := calleeOf(x); g != nil && g.Blocks != nil && g.Pkg == fn.Pkg && g.Signature.Recv() == nil && g.Signature.Results().Len() == 1 {
+				// the selection moved into a helper (`selectAttributes(user, queried)`): what it returns
+				for _, ret := range returnsOf(g) {
+					walk(ret.Results[0])
+				}
 			}
 		case *ssa.UnOp:
 			if cell, ok := x.X.(*ssa.Alloc); ok {
@@ -423,7 +454,7 @@ func (cx *Ctx) checkAttrFilter(r *Report) {
 		case unfiltered:
 			nUnfiltered++
 			// every attribute of the user is passed on: no iteration of the loop skips the append
-			if iterationCanSkip(fx.info(fn), ap.Block()) {
+			if iterationCanSkip(fx.info(ap.Parent()), ap.Block()) {
 				r.Fail("R-GUARD", key, w.InstrPos(ap), "with nothing requested an iteration over the user's attributes can skip the append: the answer does not contain all of them")
 			} else {
 				r.Ok("R-GUARD", key, w.InstrPos(ap), "all user attributes, only when no attribute was requested")
